@@ -4413,3 +4413,143 @@ func ruleIdxKeyVar(w *World, r *Report) {
 	}
 	r.ok("IDX-KEYVAR", key, w.PosOf(qLookups[0]), "the anonymous key is tried whether or not the event's key is a literal key ("+itoa(nKeyLookups)+" key lookup(s))")
 }
+
+// assertedTypes: the types a function's type switch / comma-ok assertions on a value derived from pred test for.
+func assertedTypes(fn *ssa.Function, pred func(ssa.Value) bool) map[string]bool {
+	out := map[string]bool{}
+	allInstrs(fn, func(in ssa.Instruction) {
+		if ta, ok := in.(*ssa.TypeAssert); ok && dependsOn(ta.X, pred) {
+			out[types.TypeString(ta.AssertedType, nil)] = true
+		}
+	})
+	return out
+}
+
+// LESS-COVERS (C01): what typeCode calls sortable, Less can order.
+func ruleLessCovers(w *World, r *Report) {
+	r.Rule("LESS-COVERS", "every element type for which core.typeCode returns a non-zero code (IsSortable accepts a homogeneous array of it, so SortValues sorts it) has a case in ThingSlice.Less.  For a type without a case Less answers false for every pair: sort.Sort leaves the array as it is, a pattern array and an event array with the same members in different order are walked in different orders, and the indexed search misses the rule", 1)
+	tc := w.Func("core", "typeCode")
+	less := w.Method("core", "ThingSlice", "Less")
+	key := "fn=" + fname(less)
+	// typeCode: asserted types whose branch returns a non-zero constant
+	sortable := map[string]bool{}
+	allInstrs(tc, func(in ssa.Instruction) {
+		ta, ok := in.(*ssa.TypeAssert)
+		if !ok || !ta.CommaOk {
+			return
+		}
+		// the `ok` extract controls a branch; on its true edge a constant is returned
+		for _, ref := range *ta.Referrers() {
+			ex, ok := ref.(*ssa.Extract)
+			if !ok || ex.Index != 1 {
+				continue
+			}
+			for _, ref2 := range *ex.Referrers() {
+				ifi, ok := ref2.(*ssa.If)
+				if !ok {
+					continue
+				}
+				tb := ifi.Block().Succs[0]
+				if len(tb.Instrs) > 0 {
+					if ret, ok := tb.Instrs[len(tb.Instrs)-1].(*ssa.Return); ok && len(ret.Results) == 1 {
+						if c, ok := ret.Results[0].(*ssa.Const); ok && c.Value != nil && c.Int64() != 0 {
+							sortable[types.TypeString(ta.AssertedType, nil)] = true
+						}
+					}
+				}
+			}
+		}
+	})
+	if len(sortable) == 0 {
+		r.exempt("LESS-COVERS", key, w.Pos(tc.Pos()), "typeCode's type switch was not recognised: not decided")
+		return
+	}
+	handled := assertedTypes(less, func(v ssa.Value) bool { return v == ssa.Value(less.Params[0]) })
+	var missing []string
+	for t := range sortable {
+		if !handled[t] {
+			missing = append(missing, t)
+		}
+	}
+	sort.Strings(missing)
+	if len(missing) > 0 {
+		r.violation("LESS-COVERS", key, w.Pos(less.Pos()), "typeCode calls arrays of "+strings.Join(missing, ", ")+" sortable, but Less has no case for them: such arrays are never brought into one order")
+		return
+	}
+	r.ok("LESS-COVERS", key, w.Pos(less.Pos()), itoa(len(sortable))+" sortable element types, each with a case in Less")
+}
+
+// PICAST-IDEM (C01): the index key cast is idempotent.
+func rulePicastIdem(w *World, r *Report) {
+	r.Rule("PICAST-IDEM", "core.picast is applied twice to the members of a pattern array (PatternIndex.mod casts them when it expands the array and again when it files each of them) and once to the members of an event array.  It is therefore idempotent on everything it returns: every string result is the input itself, or starts with one of the prefixes that picast's own guards (strings.HasPrefix) pass through unchanged.  A result that a second cast rewrites (\"null\" -> \"S_null\") files the pattern under a key the search never asks for", 3)
+	pc := w.Func("core", "picast")
+	key := "fn=" + fname(pc)
+	guards := map[string]bool{}
+	allInstrs(pc, func(in ssa.Instruction) {
+		c, ok := in.(*ssa.Call)
+		if !ok || !isPkgFunc(calleeObj(c.Common()), "strings", "HasPrefix") || len(c.Common().Args) != 2 {
+			return
+		}
+		if s, ok := constString(c.Common().Args[1]); ok {
+			guards[s] = true
+		}
+	})
+	if len(guards) == 0 {
+		r.exempt("PICAST-IDEM", key, w.Pos(pc.Pos()), "picast has no pass-through guards: shape not recognised, not decided")
+		return
+	}
+	hasGuardPrefix := func(s string) bool {
+		for g := range guards {
+			if strings.HasPrefix(s, g) {
+				return true
+			}
+		}
+		return false
+	}
+	n := 0
+	var check func(v ssa.Value, where string, seen map[ssa.Value]bool)
+	check = func(v ssa.Value, where string, seen map[ssa.Value]bool) {
+		if seen[v] {
+			return
+		}
+		seen[v] = true
+		switch t := v.(type) {
+		case *ssa.MakeInterface:
+			check(t.X, where, seen)
+		case *ssa.Phi:
+			for _, e := range t.Edges {
+				check(e, where, seen)
+			}
+		case *ssa.Const:
+			if s, ok := constString(t); ok {
+				n++
+				if hasGuardPrefix(s) {
+					r.ok("PICAST-IDEM", key+" result="+s, where, "passes through a second cast unchanged")
+				} else {
+					r.violation("PICAST-IDEM", key+" result="+s, where, "picast returns the constant \""+s+"\", which a second picast rewrites: the two sides of the index disagree about the key")
+				}
+			}
+		case *ssa.BinOp:
+			if t.Op == token.ADD {
+				if s, ok := constString(t.X); ok {
+					n++
+					if hasGuardPrefix(s) {
+						r.ok("PICAST-IDEM", key+" result="+s+"+...", where, "passes through a second cast unchanged")
+					} else {
+						r.violation("PICAST-IDEM", key+" result="+s+"+...", where, "picast returns a string with the prefix \""+s+"\", which a second picast rewrites")
+					}
+				}
+			}
+		}
+	}
+	allInstrs(pc, func(in ssa.Instruction) {
+		if ret, ok := in.(*ssa.Return); ok {
+			for _, res := range ret.Results {
+				check(res, w.PosOf(in), map[ssa.Value]bool{})
+			}
+		}
+	})
+	if n == 0 {
+		r.exempt("PICAST-IDEM", key, w.Pos(pc.Pos()), "no constant or prefixed string result found: shape not recognised, not decided")
+	}
+}
